@@ -24,7 +24,7 @@ func smKey(name string) string { return pkgSM + ".States." + name }
 func init() {
 	register(PropInfo{
 		ID: "C01",
-		Explanation: "All-paths decision of the structural clauses of C01 (DESIGN.md section 4, C01): (R1) dominance relations in the plan state graph extracted from the req.Next assignments of every path of every state function; (R2) routing of the pre-check gate's error branch; (R3) execSeq runs actions sequentially, in declared order, and stops at the first error; (R4) only blocks[0] is ever executed and blocks are popped from the front in BlockEnd/ExecuteBlock only; (R5) every path from a sequence launch to a return of ExecuteSequences passes the group's Wait; (R6) exact caller sets of the only route to Plugin.Execute; (R7) the failure of a plugin invocation reaches execSeq's gate: exec's outcome mapping, Retry's result stored and promoted to the action machine's error, runAction returning it and not re-running terminal actions. Decides these necessary conditions, not the behaviour as a whole.",
+		Explanation: "All-paths decision of the structural clauses of C01 (DESIGN.md section 4, C01): (R1) dominance relations in the plan state graph extracted from the req.Next assignments of every path of every state function; (R2) routing of the pre-check gate's error branch; (R3) execSeq runs actions sequentially, in declared order, and stops at the first error; (R4) only blocks[0] is ever executed and blocks are popped from the front in BlockEnd/ExecuteBlock only; (R5) every path from a sequence launch to a return of ExecuteSequences passes the group's Wait; (R6) exact caller sets of the only route to Plugin.Execute; (R7) the failure of a plugin invocation reaches execSeq's gate: exec's outcome mapping, Retry's result stored and promoted to the action machine's error, runAction returning it and not re-running terminal actions; (R8) the declared order survives the sqlite vault (positions bound from the declared index into a numeric column, actions read back ORDER BY pos, child lists rebuilt in id-array order). Decides these necessary conditions, not the behaviour as a whole.",
 		NotDecided: []string{"that storage returns actions in position order at run time (C13 decides ORDER BY/pos binding)", "happens-before across goroutines beyond join points", "latencies"},
 		Assumptions: []string{"statemachine.Run clears Next before each state and stops when Next is nil or Err is set (read in gostdlib/base)", "worker.Group.Wait returns after every function given to Group.Go has returned"},
 		Rules:       rulesC01,
@@ -117,6 +117,25 @@ func rulesC01(r *Run) {
 	r.Kind("R7", "K2")
 	ruleFailureChain(r, "R7")
 	r.Expect("R7", 7)
+
+	// ---- R8: the declared order survives the vault: Start executes the plan as read back from storage
+	r.Kind("R8", "K8")
+	if m := buildSqliteModel(r, "R8"); m != nil {
+		ruleStoredOrder(r, "R8", m)
+		// pos is an INTEGER column bound as an integer in every table that has it (ORDER BY pos must be numeric)
+		for _, w := range m.writers {
+			if w.SQL.Kind != "insert" {
+				continue
+			}
+			b := w.Binds["$pos"]
+			create := m.tables[w.SQL.Table]
+			if b == nil || create.Types["pos"] == "" {
+				continue
+			}
+			r.Check("R8", "pos-is-numeric:"+w.SQL.Table, b.Pos, create.Types["pos"] == "INTEGER" && b.Class == "int", "%s.pos is declared %s and bound as %s: a textual position sorts lexicographically (a00 a01 a10 a11 a02 …), so sequences with more than ten actions run out of declared order", w.SQL.Table, create.Types["pos"], b.Class)
+		}
+	}
+	r.Expect("R8", 9)
 }
 
 func posOfState(m *Machine, st string) (p token.Pos) {
